@@ -1,0 +1,31 @@
+/*
+ * Verification hook points, compiled only with `--cfg grex_verif`.
+ *
+ * A point is a named place inside `build()` at which an external deterministic
+ * simulator may hand control to another caller thread. With no hook installed a
+ * point is one relaxed atomic load and does nothing else; without the cfg flag
+ * this module and every call to it are not compiled at all.
+ */
+
+use std::sync::atomic::{AtomicUsize, Ordering};
+
+static POINT_HOOK: AtomicUsize = AtomicUsize::new(0);
+
+/// Installs (or removes, with `None`) the function called at every hook point.
+pub fn set_point_hook(hook: Option<fn(&'static str)>) {
+    let raw = match hook {
+        Some(f) => f as usize,
+        None => 0,
+    };
+    POINT_HOOK.store(raw, Ordering::SeqCst);
+}
+
+#[inline]
+pub(crate) fn point(site: &'static str) {
+    let raw = POINT_HOOK.load(Ordering::Relaxed);
+    if raw != 0 {
+        // SAFETY: the only non-zero values ever stored are `fn(&'static str)` pointers.
+        let f: fn(&'static str) = unsafe { std::mem::transmute::<usize, fn(&'static str)>(raw) };
+        f(site);
+    }
+}
